@@ -8,6 +8,7 @@ func init() {
 	vRegister("H_C20_Sequence", H_C20_Sequence)
 	vRegister("H_C20_Concurrent", H_C20_Concurrent)
 	vRegister("H_C20_LoopsStop", H_C20_LoopsStop)
+	vRegister("H_C20_ReadLockedTicks", H_C20_ReadLockedTicks)
 	vRegister("H_C20_ShutdownOverlap_RT", H_C20_ShutdownOverlap_RT)
 }
 
@@ -233,4 +234,54 @@ func H_C20_ShutdownOverlap_RT() {
 	}
 	vAssert(m.hasShutdown(), "c20.overlap.flag")
 	vCover("c20.overlap")
+}
+
+// C20, "never races with the protocol": the periodic ticks that walk the member table while holding only the read
+// lock (gossip, the indirect-probe helper selection) leave the table exactly as it
+// was - order included - so that Members(), NumMembers(), the probe cursor and a concurrent state exchange, which
+// hold the same read lock at the same time, see a stable list. The real kRandomNodes runs here (not its stub),
+// with rand.Shuffle as an arbitrary permutation.
+func H_C20_ReadLockedTicks() {
+	vOpt("krandom-real", 1)
+	vOpt("shuffle", 1)
+	conf := vBaseConfig()
+	conf.IndirectChecks = 3 // small clusters (fewer than 3k records) take kRandomNodes' shuffle path
+	conf.DisableTcpPings = true
+	f := vNewML(conf)
+	m := f.m
+	f.vAddSelf(3, nil)
+	f.vAddConcreteAlive(vPeerA, 2)
+	f.vAddConcreteAlive(vPeerB, 3)
+	f.vAddConcreteAlive("n3", 4)
+	m.encodeBroadcastNotify(vPeerB, suspectMsg, &suspect{Incarnation: 1, Node: vPeerB, From: vSelf}, nil)
+	var before []string
+	for _, n := range m.nodes {
+		before = append(before, n.Name)
+	}
+	tick := vPick(2) * 2
+	for rep := 0; rep < 1+2*(1-vSymbolicInt()); rep++ { // natively a few repetitions (the permutation is random there)
+		switch tick {
+		case 0:
+			m.gossip()
+		case 1:
+			m.pushPull() // the dial fails; only the target selection matters
+		case 2:
+			node := *m.nodeMap[vPeerA]
+			m.probeNode(&node) // nobody answers: helpers for the indirect probe are selected under the read lock
+			vAdvance(2 * time.Second)
+		}
+	}
+	same := len(m.nodes) == len(before)
+	for i := 0; same && i < len(before); i++ {
+		same = m.nodes[i].Name == before[i]
+	}
+	vAssert(same, "c20.ticks.table-untouched-under-the-read-lock")
+	vCover("c20.ticks")
+}
+
+func vSymbolicInt() int {
+	if vSymbolic() {
+		return 1
+	}
+	return 0
 }
